@@ -35,7 +35,7 @@ def once_ids(sites):
     return ids if len(ids) == 4 else None
 
 
-def run_scenario(driver, scn, work, tag, gomaxprocs, race=False):
+def run_scenario(driver, scn, work, tag, gomaxprocs, race=False, chaos=0):
     sj = os.path.join(work.dir, "scn-%s-%d.json" % (tag, scn["id"]))
     tj = os.path.join(work.dir, "scn-%s-%d.ndjson" % (tag, scn["id"]))
     cj = os.path.join(work.dir, "scn-%s-%d.conc" % (tag, scn["id"]))
@@ -43,6 +43,8 @@ def run_scenario(driver, scn, work, tag, gomaxprocs, race=False):
     env = dict(os.environ, GOMAXPROCS=str(gomaxprocs), VERIF_WATCH=",".join(str(v) for v in (WATCH or [])))
     if race:
         env["GORACE"] = "halt_on_error=0 exitcode=66"
+    if chaos:
+        env["VERIF_CHAOS"] = str(chaos)
     rc, out = vlib.run([driver, "conc", sj, tj, cj], 600, env=env)
     return rc, out, tj, cj
 
@@ -66,6 +68,7 @@ def check(tier):
         fails, races = [], []
         tot = {"events": 0, "conjuncts": 0, "states": 0, "transitions": 0}
         once_logs = 0
+        chaos_runs = [0]
         samples = []
         with cf.ThreadPoolExecutor(max_workers=vlib.NCPU) as ex:
             jobs = []
@@ -82,6 +85,13 @@ def check(tier):
                         once_logs += 1
                         jobs.append(("once", scn, ex.submit(vlib.tlc, work, "TraceOnce", "TraceOnce.cfg", 1, 600,
                                                             {"VERIF_TRACE": cj, "VERIF_ONCE_IDS": idf}, "2g")))
+                # seeded cooperative schedules: one processor, yields at pseudo-randomly chosen function entries of the library
+                for c in range(1, (3 if tier == "quick" else 9)):
+                    rc, out, tj2, _ = run_scenario(drv, scn, work, "c%d" % c, 1, chaos=vlib.seed() * 1000 + scn["id"] * 16 + c)
+                    if rc != 0:
+                        raise Infra("scenario driver failed under chaos scheduling (rc=%d):\n%s" % (rc, out[-2000:]))
+                    jobs.append(("api", scn, ex.submit(vlib.validate_trace, work, tj2)))
+                    chaos_runs[0] += 1
                 # the same scenario under the race detector, a few times with different parallelism
                 for gmp2 in ([4, 16] if tier == "quick" else [2, 4, 16]):
                     rc, out, _, _ = run_scenario(race_drv, scn, work, "r", gmp2, race=True)
@@ -123,7 +133,7 @@ def check(tier):
             "transitions": max(tot["transitions"] + sum(r["transitions"] for r in mc), 1),
             "traces_validated_against_impl": sum(len(s["goroutines"]) for s in scns),
             "samples": samples, "scenarios": len(scns), "once_logs_replayed": once_logs,
-            "race_detector_runs": len(scns) * (2 if tier == "quick" else 3),
+            "race_detector_runs": len(scns) * (2 if tier == "quick" else 3), "seeded_cooperative_schedules": chaos_runs[0],
             "events_validated": tot["events"], "once_function_ids": ids or "not found (refactored names): log replay skipped",
             "model_checking_runs": mc, "exhaustive": False,
             "explanation": "Once.tla: exhaustive interleavings for G goroutines (safety + termination under fairness), flag variant must fail; "
